@@ -25,6 +25,9 @@ pub fn plan(tier: &str, seed: u64) -> Vec<Batch> {
         for i in 0..conc {
             v.push(Batch { check: "C13".into(), phase: "concurrent".into(), uni: uni.clone().workers(4), seed, lo: i * PER_BATCH, hi: (i + 1) * PER_BATCH, fresh: false, tier: tier.into(), extra: Value::Null });
         }
+        for sc in 0..fault_scenarios().len() as u64 {
+            v.push(Batch { check: "C13".into(), phase: "fault-enum".into(), uni: uni.clone(), seed, lo: sc, hi: sc + 1, fresh: false, tier: tier.into(), extra: Value::Null });
+        }
         // "never follows links", with an attacker that swaps a directory of the
         // subtree for a link while the call runs: every (operation, swap, window)
         let n = (link_ops().len() * link_swaps().len()) as u64;
@@ -332,7 +335,7 @@ impl Hooks for H {
                     if !left.is_empty() {
                         fail("entry-still-exists-after-success", format!("remove_all({path:?}) succeeded but {:?} still exist", left.iter().take(3).collect::<Vec<_>>()));
                     }
-                } else if !is_interference(&rec.outcome) {
+                } else if !is_interference(&rec.outcome) && rec.faults_inside == 0 {
                     fail("fails-where-it-must-succeed", format!("remove_all({path:?}) of existing {p:?} failed: {:?}", rec.outcome));
                 }
             }
@@ -385,6 +388,56 @@ pub fn long_spelling_case(uni: &UniCfg, variant: u64) -> Case {
     c.world = Some(w);
     c.jobs = vec![vec![o]];
     c
+}
+
+/// fault enumeration: fixed subtree, every (system call of the call, errno of its catalogue); whatever
+/// the call reports, only entries of the named subtree may have disappeared, and a call that reports
+/// success has removed all of it
+pub fn fault_world() -> WorldSpec {
+    let mut w = WorldSpec::default();
+    w.push(Entry::dir("root"));
+    w.push(Entry::file("root/t/a/f1", "1"));
+    w.push(Entry::file("root/t/a/f2", "2"));
+    w.push(Entry::file("root/t/b/c/f3", "3"));
+    w.push(Entry::link("root/t/b/out", "/mnt/w/outside"));
+    w.push(Entry::link("root/t/b/up", "../../keep"));
+    w.push(Entry::file("root/keep/precious", "PRECIOUS"));
+    w.push(Entry::link("root/lt", "t"));
+    w.push(Entry::file("root/single", "S"));
+    w.push(Entry::file("outside/secret", "OUTSIDE-SECRET"));
+    w
+}
+
+pub fn fault_scenarios() -> Vec<OpSpec> {
+    let o = |p: &str| OpSpec::new(Op::RemoveAll { path: p.to_string() });
+    vec![o("t"), o("t/b"), o("lt"), o("single"), o("t").c(), o("keep/../t/a"), o("missing"), o("t/b/out"), o("t/")]
+}
+
+fn run_fault_enum(u: &mut Universe, b: &Batch, idx: u64, st: &mut Stats) -> bool {
+    let op = fault_scenarios()[idx as usize].clone();
+    let mk = |script: Vec<Dec>| {
+        let mut c = Case::new("C13", "fault-enum", b.uni.clone());
+        c.world = Some(fault_world());
+        c.jobs = vec![vec![op.clone()]];
+        c.plan.script = script;
+        c
+    };
+    let out0 = run_case(u, &mk(vec![]), &mut crate::sup::NoHooks, false);
+    if let Some(e) = &out0.harness_error {
+        st.harness_errors.push(format!("fault-enum {idx}: {e}"));
+        return false;
+    }
+    let sites: Vec<(usize, i64)> = out0.trace.iter().filter(|e| e.lib && e.op == Some(0) && e.nr != crate::seam::HYPERCALL_NR && e.nr != libc::SYS_futex).map(|e| (e.step, e.nr)).collect();
+    for (step, nr) in sites {
+        for f in crate::sup::fault_catalogue(nr) {
+            let case = mk(vec![Dec { step, fault: Some(f), ..Default::default() }]);
+            if !run_seq(u, &case, st, false) || u.poisoned {
+                return false;
+            }
+            st.count("fault_enum.placements", 1);
+        }
+    }
+    true
 }
 
 pub fn gen_seq_case(seed: u64, idx: u64, uni: &UniCfg) -> Case {
@@ -638,6 +691,11 @@ pub fn run(u: &mut Universe, b: &Batch, st: &mut Stats) {
                     return;
                 }
             }
+            "fault-enum" => {
+                if !run_fault_enum(u, b, idx, st) {
+                    return;
+                }
+            }
             "concurrent" => {
                 let case = gen_conc_case(b.seed, idx, &b.uni);
                 let same = case.extra["same"].as_bool().unwrap_or(true);
@@ -710,7 +768,7 @@ pub fn finalise(tier: &str, seed: u64, res: coord::CheckResult) -> i32 {
         tier,
         seed,
         "exploration",
-        "sequential: one evaluation = one remove_all on a generated or canonical tree (links to siblings, parents, outside; hard links; fifos; all path spellings incl. final '.'/'..' and trailing '/'), expectation from raw kernel queries before the call (in-root parent + final name), whole-world snapshot diff afterwards; concurrent: 2-4 caller threads remove the same path (all must succeed) or a path and its ancestor (frame condition and termination only) under a seeded scheduler; preempt: every schedule with at most one preemption for three canonical scenarios; attacked: one remove_all (3 spellings, Rust/C) on a tree with a sibling directory inside the root and a directory outside it, while the attacker exchanges one directory of the subtree for a symlink (15 swaps: victim / sub / deep x relative, absolute, in-root and outside targets) at every system-call window of the call - the directories that were never part of the subtree must be byte-for-byte unchanged afterwards; non-trivial = (sequential) the call removed something / (concurrent) a context switch away from the default order happened; distinct = hash of (case, interleaving)",
+        "sequential: one evaluation = one remove_all on a generated or canonical tree (links to siblings, parents, outside; hard links; fifos; all path spellings incl. final '.'/'..' and trailing '/'), expectation from raw kernel queries before the call (in-root parent + final name), whole-world snapshot diff afterwards; concurrent: 2-4 caller threads remove the same path (all must succeed) or a path and its ancestor (frame condition and termination only) under a seeded scheduler; fault-enum: 9 fixed calls x every (system call of the call, errno of its catalogue) - whatever the call reports only entries of the named subtree may have disappeared, a call that reports success has removed all of it; preempt: every schedule with at most one preemption for three canonical scenarios; attacked: one remove_all (3 spellings, Rust/C) on a tree with a sibling directory inside the root and a directory outside it, while the attacker exchanges one directory of the subtree for a symlink (15 swaps: victim / sub / deep x relative, absolute, in-root and outside targets) at every system-call window of the call - the directories that were never part of the subtree must be byte-for-byte unchanged afterwards; non-trivial = (sequential) the call removed something / (concurrent) a context switch away from the default order happened; distinct = hash of (case, interleaving)",
         res,
         extra,
         vec!["preemption only at trapped system calls".into(), "link counts are not compared (removing one name of a hard-linked file changes the count at the other)".into()],
